@@ -73,10 +73,11 @@ where
     D: serde::Deserializer<'de>,
 {
     let s: &'de str = Deserialize::deserialize(deserializer)?;
-    // String::from(s) could panic and is not really infallibe.  It is removed in heapless 0.8.
-    #[allow(clippy::unnecessary_fallible_conversions)]
-    match String::try_from(s) {
-        Ok(string) => Ok(Some(string)),
+    // With heapless 0.7, String::from(s) and String::try_from(s) (which is the infallible blanket impl
+    // forwarding to String::from) panic if s does not fit.  push_str reports the overflow instead.
+    let mut string = String::new();
+    match string.push_str(s) {
+        Ok(()) => Ok(Some(string)),
         Err(_err) => {
             info_now!("skipping field: {:?}", _err);
             Ok(None)
